@@ -133,3 +133,7 @@ package keeper
 //@ ensures [pool_debited_exactly_the_reward] err == nil && module(fromPool) != module("tips_escrow_pool") ==> bank.bal[module(fromPool)] == old(bank.bal[module(fromPool)]) - reward && bank.bal[module("tips_escrow_pool")] == old(bank.bal[module("tips_escrow_pool")]) + reward
 //@ loop 3 "for i, reporter := range sortedReporters"
 //@ loop 3 invariant [paid_so_far_is_total_distributed] (i < len(sortedReporters) ==> argsum(AllocateTip, amount) == totaldist) && (i == len(sortedReporters) && i > 0 ==> argsum(AllocateTip, amount) == reward * 1000000000000000000) && (i == 0 ==> !called(AllocateTip) && totaldist == 0)
+//@ loop 2 "for addr, data := range reportersMap"
+//@ loop 2 invariant [collected_addresses_are_visited_keys] forall j in [0, len(sortedReporters)) :: seen(sortedReporters[j].address)
+//@ loop 2 invariant [collected_addresses_are_distinct] forall a in [0, len(sortedReporters)) :: forall b in [0, len(sortedReporters)) :: a != b ==> sortedReporters[a].address != sortedReporters[b].address
+//@ loop 3 invariant [payout_order_is_strictly_by_address] forall a in [0, len(sortedReporters)) :: forall b in [0, len(sortedReporters)) :: a < b ==> sortedReporters[a].address < sortedReporters[b].address
